@@ -224,6 +224,11 @@ def run(ctx):
                 ("dtw.distance_matrix_fast", lambda s: dtw.distance_matrix_fast(s, compact=True, **opts), True),
                 ("dtw.distance_matrix(full)", lambda s: dtw.distance_matrix(s, **opts), False)):
             evaluate(label, fn, colargs, c, canonical="list_nd", shared=opts)
+        if it % 6 == 3:
+            mpargs = {k: colargs[k] for k in ("list_nd", "list_strided", "list_f32", "list_array", "list_int") if k in colargs}
+            evaluate("dtw.distance_matrix(use_c, parallel, use_mp)",
+                     lambda s: dtw.distance_matrix(s, compact=True, use_c=True, parallel=True, use_mp=True, **opts), mpargs,
+                     True, canonical="list_nd", shared=opts)
         # barycenter averaging: the initial average must not be written to
         cvals = [float(rng.randint(-2, 2)) for _ in range(rng.randint(2, 5))]
         dargs = {k: (v, np.array(cvals)) for k, v in cols.items() if k in ("list_nd", "list_strided", "list_array", "matrix",
